@@ -157,6 +157,10 @@ func (m *MuxBroker) Run() {
 		select {
 		case p.ch <- stream:
 		default:
+			// The slot already holds an earlier, not yet accepted connection for
+			// this ID. Close this one so that its dialer gets an error instead
+			// of waiting forever for an ack that nobody will send.
+			stream.Close()
 		}
 
 		// Wait for a timeout
